@@ -13,6 +13,7 @@ PROP = "C17"
 PROP_FILES = ["Properties/C17.v", "Check/C17Check.v"]
 SIG_LOOP = "engine-cancel-from-loop-deadlock"
 SIG_NIL = "engine-double-cancel-nil"
+SIG_UPD = "engine-update-panic-kills"
 
 
 # ---------- expressions and events ----------
@@ -31,13 +32,22 @@ def src(e):
         return "(a: 1).b"
     if k == "failgt":
         return "cond {$ > %d: (a: 1).b, _: $}" % e[1]
+    if k == "panic":          # a rel.Expr implemented by the harness whose Eval panics
+        return "!panic"
+    if k == "panicgt":        # ... panics unless $ is a number <= n
+        return "!panicgt:%d" % e[1]
     raise ValueError(e)
 
 
 def cexpr(e):
     k = e[0]
-    return {"const": "(CConst %d)", "add": "(CAdd %d)", "muladd": "(CMulAdd %d)", "failgt": "(CFailGt %d)"}[k] % e[1] \
-        if k in ("const", "add", "muladd", "failgt") else {"root": "CRoot", "fail": "CFail"}[k]
+    return {"const": "(CConst %d)", "add": "(CAdd %d)", "muladd": "(CMulAdd %d)", "failgt": "(CFailGt %d)", "panicgt": "(CPanicGt %d)"}[k] % e[1] \
+        if k in ("const", "add", "muladd", "failgt", "panicgt") else {"root": "CRoot", "fail": "CFail", "panic": "CPanic"}[k]
+
+
+def obs_parts(ev):
+    """("observe", oid, expr, fail_at[, panic_at, oneshot]) -> (oid, expr, fail_at, panic_at, oneshot)"""
+    return ev[1], ev[2], ev[3], tuple(ev[4]) if len(ev) > 4 else (), bool(ev[5]) if len(ev) > 5 else False
 
 
 def ev_json(ev):
@@ -45,7 +55,8 @@ def ev_json(ev):
     if op == "update":
         return {"op": "update", "expr": src(ev[1])}
     if op == "observe":
-        return {"op": "observe", "oid": ev[1], "expr": src(ev[2]), "fail_at": ev[3]}
+        oid, e, fail_at, panic_at, oneshot = obs_parts(ev)
+        return {"op": "observe", "oid": oid, "expr": src(e), "fail_at": fail_at, "panic_at": list(panic_at), "oneshot": oneshot}
     if op == "cancel":
         return {"op": "cancel", "oid": ev[1]}
     return {"op": op}
@@ -56,8 +67,9 @@ def ev_coq(ev):
     if op == "update":
         return "(Update %s)" % cexpr(ev[1])
     if op == "observe":
-        cb = "None" if ev[3] < 0 else "(Some %d%%nat)" % ev[3]
-        return "(Observe %d %s (cb_of %s))" % (ev[1], cexpr(ev[2]), cb)
+        oid, e, fail_at, panic_at, oneshot = obs_parts(ev)
+        cb = "None" if fail_at < 0 else "(Some %d%%nat)" % fail_at
+        return "(Observe %d %s (cb_full %s [%s]))" % (oid, cexpr(e), cb, "; ".join("%d%%nat" % k for k in panic_at))
     if op == "cancel":
         return "(Cancel %d)" % ev[1]
     return {"hangup": "Hangup", "stop": "Stop"}[op]
@@ -68,7 +80,10 @@ def ev_text(ev):
     if op == "update":
         return "Update(%s)" % src(ev[1])
     if op == "observe":
-        return "Observe#%d(%s%s)" % (ev[1], src(ev[2]), "" if ev[3] < 0 else ", callback fails at delivery %d" % ev[3])
+        oid, e, fail_at, panic_at, oneshot = obs_parts(ev)
+        return "Observe#%d(%s%s%s%s)" % (oid, src(e), "" if fail_at < 0 else ", callback fails at delivery %d" % fail_at,
+                                       "" if not panic_at else ", callback panics at deliveries %s" % list(panic_at),
+                                       ", one-shot onclose" if oneshot else "")
     if op == "cancel":
         return "Cancel#%d" % ev[1]
     return op.capitalize()
@@ -90,11 +105,21 @@ def tup(x):
 WITNESSES = {
     SIG_LOOP: [("observe", 1, ("fail",), -1), ("update", ("const", 1))],
     SIG_NIL: [("observe", 1, ("root",), -1), ("cancel", 1), ("cancel", 1), ("update", ("const", 1))],
+    SIG_UPD: [("observe", 1, ("root",), -1), ("update", ("panic",)), ("update", ("const", 1))],
 }
 
 CORPUS = [
     WITNESSES[SIG_LOOP],
     WITNESSES[SIG_NIL],
+    WITNESSES[SIG_UPD],
+    # panicking observers followed by more updates (Properties/C17.v wit_observer_panics)
+    [("update", ("const", 1)), ("observe", 1, ("panicgt", 1), -1, (), True), ("observe", 2, ("root",), -1, (1,), False), ("observe", 3, ("root",), -1),
+     ("update", ("const", 2)), ("update", ("const", 3)), ("update", ("const", 4))],
+    # a gRPC-shaped observer whose callback panics on every state from the third delivery on, next to a healthy one
+    [("observe", 1, ("root",), -1, (2, 3, 4, 5), True), ("observe", 2, ("root",), -1), ("update", ("const", 1)), ("update", ("const", 2)),
+     ("update", ("const", 3)), ("update", ("const", 4)), ("hangup",), ("update", ("const", 5))],
+    # an expression that panics on every state, one-shot onclose, then more updates and a cancel of the dead observation
+    [("observe", 1, ("panic",), -1, (), True), ("update", ("const", 1)), ("update", ("add", 1)), ("cancel", 1), ("update", ("add", 1)), ("stop",)],
     [("observe", 1, ("root",), 1), ("update", ("const", 1)), ("update", ("const", 2))],
     [("observe", 1, ("root",), -1), ("hangup",), ("cancel", 1)],
     [("observe", 1, ("root",), -1), ("update", ("const", 5)), ("update", ("fail",)), ("observe", 2, ("add", 1), -1),
@@ -121,8 +146,24 @@ def rnd_update(rng, db_set, fail_p=0.2):
     return ("update", ("muladd", rng.randrange(0, 10)))
 
 
-def gen_structured(rng, aim_quirk):
-    """mostly-valid history; aim_quirk: also failing observers / repeated cancels"""
+def rnd_panicky_observer(rng, oid, db_set):
+    """an observer that will panic: in its expression (from some state on) and/or in its callback (once, or at several deliveries)"""
+    r = rng.random()
+    if r < 0.35:
+        e, panic_at = ("panicgt", rng.randrange(0, 40)), ()
+    elif r < 0.45:
+        e, panic_at = ("panic",), ()
+    elif r < 0.8:
+        k = rng.randrange(0, 4)
+        e, panic_at = (("root",) if not db_set or rng.random() < 0.6 else ("add", 1)), tuple(range(k, k + rng.choice([1, 1, 2, 5])))
+    else:
+        k = rng.randrange(0, 3)
+        e, panic_at = ("panicgt", rng.randrange(5, 60)), (k, k + 1)
+    return ("observe", oid, e, rng.choice([-1, -1, -1, rng.randrange(0, 4)]), panic_at, rng.random() < 0.6)
+
+
+def gen_structured(rng, aim_quirk, panics=0.12):
+    """mostly-valid history; aim_quirk: also failing observers / repeated cancels; panics: share of observers that panic"""
     n = rng.randrange(3, 13)
     evs, live, dead, nxt, db_set, muls = [], [], [], 1, False, 0
     if rng.random() < 0.8:
@@ -132,6 +173,8 @@ def gen_structured(rng, aim_quirk):
         r = rng.random()
         if r < 0.42:
             u = rnd_update(rng, db_set)
+            if aim_quirk and rng.random() < 0.04:
+                u = ("update", rng.choice([("panic",), ("panicgt", rng.randrange(0, 20))]))
             if u[1][0] == "muladd":
                 muls += 1
                 if muls > 8:
@@ -140,13 +183,14 @@ def gen_structured(rng, aim_quirk):
                 db_set = True
             evs.append(u)
         elif r < 0.72:
-            if aim_quirk and rng.random() < 0.5:
+            if rng.random() < panics:
+                evs.append(rnd_panicky_observer(rng, nxt, db_set))
+            elif aim_quirk and rng.random() < 0.5:
                 e = rng.choice([("fail",), ("failgt", rng.randrange(0, 60)), ("add", 1), ("root",)])
-                fail_at = rng.choice([-1, 0, 1, 2, 3])
+                evs.append(("observe", nxt, e, rng.choice([-1, 0, 1, 2, 3]), (), rng.random() < 0.3))
             else:
                 e = rng.choice([("root",), ("root",), ("add", rng.randrange(1, 4)), ("muladd", rng.randrange(0, 10))]) if db_set else ("root",)
-                fail_at = -1
-            evs.append(("observe", nxt, e, fail_at))
+                evs.append(("observe", nxt, e, -1, (), rng.random() < 0.3))
             live.append(nxt)
             nxt += 1
         elif r < 0.88:
@@ -176,10 +220,11 @@ def gen_malformed(rng):
     for _ in range(n):
         r = rng.random()
         if r < 0.35:
-            evs.append(("update", rng.choice([("const", rng.randrange(0, 5)), ("add", 1), ("muladd", 2), ("fail",), ("failgt", 2), ("root",)])))
+            evs.append(("update", rng.choice([("const", rng.randrange(0, 5)), ("add", 1), ("muladd", 2), ("fail",), ("failgt", 2), ("root",)])
+                                  if rng.random() < 0.96 else ("panicgt", 3)))
         elif r < 0.65:
-            evs.append(("observe", nxt, rng.choice([("root",), ("add", 1), ("fail",), ("failgt", 2), ("muladd", 1), ("const", 4)]),
-                        rng.choice([-1, -1, 0, 1, 2])))
+            evs.append(("observe", nxt, rng.choice([("root",), ("add", 1), ("fail",), ("failgt", 2), ("muladd", 1), ("const", 4), ("panic",), ("panicgt", 2)]),
+                        rng.choice([-1, -1, 0, 1, 2]), rng.choice([(), (), (0,), (1,), (1, 2), (0, 1, 2, 3)]), rng.random() < 0.5))
             nxt += 1
         elif r < 0.85 and nxt > 1:
             evs.append(("cancel", rng.randrange(1, nxt)))
@@ -233,7 +278,7 @@ def gen_concurrent(rng):
     return pre, clients, post
 
 
-SMALL_ALPHABET = ["u1", "ufail", "umul", "obs", "obsgt", "obscb", "cancel", "hangup", "stop"]
+SMALL_ALPHABET = ["u1", "ufail", "umul", "obs", "obsgt", "obscb", "obspanic", "obscbpanic", "cancel", "hangup", "stop"]
 
 
 def small_history(word):
@@ -251,6 +296,10 @@ def small_history(word):
             evs.append(("observe", nxt, ("failgt", 1), -1)); nxt += 1
         elif w == "obscb":
             evs.append(("observe", nxt, ("root",), 1)); nxt += 1
+        elif w == "obspanic":
+            evs.append(("observe", nxt, ("panicgt", 1), -1, (), True)); nxt += 1
+        elif w == "obscbpanic":
+            evs.append(("observe", nxt, ("root",), -1, (1, 2), True)); nxt += 1
         elif w == "cancel":
             if nxt == 1:
                 return None
@@ -269,9 +318,16 @@ def gen_cases(rng, tier):
     for h in CORPUS:
         add("corpus", h)
     quick = tier == "quick"
-    n_struct, n_quirk, n_mal, n_conc = (260, 50, 60, 70) if quick else (2600, 500, 700, 600)
+    n_struct, n_quirk, n_mal, n_conc = (170, 40, 50, 50) if quick else (2300, 500, 700, 600)
     for _ in range(n_struct):
         add("structured", gen_structured(rng, False))
+    for _ in range(80 if quick else 900):
+        # panicking observers (expression and/or callback, also several panics, one-shot onclose) followed by more accepted updates
+        h = gen_structured(rng, False, panics=0.7)
+        h = [e for e in h if e[0] != "stop"]
+        for _ in range(rng.randrange(2, 5)):
+            h.append(("update", rng.choice([("const", rng.randrange(0, 50)), ("add", rng.randrange(1, 9))])))
+        add("panicking-observers", h)
     for _ in range(n_quirk):
         add("aimed-at-quirks", gen_structured(rng, True))
     for _ in range(n_mal):
@@ -279,7 +335,7 @@ def gen_cases(rng, tier):
     for _ in range(n_conc):
         pre, cl, post = gen_concurrent(rng)
         add("concurrent", pre, cl, post)
-    # exhaustive small scope: every word over a 9-letter alphabet up to length 2 (quick) / 3 (thorough)
+    # exhaustive small scope: every word over an 11-letter alphabet up to length 2 (quick) / 3 (thorough)
     for ln in range(1, 3 if quick else 4):
         for word in itertools.product(SMALL_ALPHABET, repeat=ln):
             h = small_history(word)
@@ -341,7 +397,7 @@ def observed_coq(c, o):
     return "{| o_status := %s; o_acks := [%s]; o_log := [%s] |}" % (status, "; ".join(acks), "; ".join(log)), None
 
 
-def run_cases(run, vh, cases, qcur, workers=8):
+def run_cases(run, vh, cases, qcur, workers=5):
     # implementation
     shards = [cases[i::workers] for i in range(workers)]
     outs = {}
@@ -349,10 +405,11 @@ def run_cases(run, vh, cases, qcur, workers=8):
     def do_h(shard):
         if not shard:
             return {}, 0, ""
-        return run_harness(vh, "c17", [harness_case(c) for c in shard], timeout=2400)
+        return run_harness(vh, "c17", [harness_case(c) for c in shard], timeout=2400, stall=150)
     with concurrent.futures.ThreadPoolExecutor(max_workers=workers) as ex:
         for o, rc, err in ex.map(do_h, shards):
             outs.update(o)
+    log("C17: harness done at +%.1fs" % (time.time() - run.t0))
     # model
     results, bad = {}, {}
     terms = []
@@ -361,11 +418,11 @@ def run_cases(run, vh, cases, qcur, workers=8):
         if t is None:
             bad[c["id"]] = why
             continue
-        terms.append((c, "  {| c_id := %d; c_q := mkQ17 %s %s; c_pre := [%s]; c_clients := [%s]; c_post := [%s];\n     c_obs := %s |}" % (
-            c["id"], cbool(qcur[0]), cbool(qcur[1]), "; ".join(ev_coq(e) for e in c["pre"]),
+        terms.append((c, "  {| c_id := %d; c_q := mkQ17 %s %s %s; c_pre := [%s]; c_clients := [%s]; c_post := [%s];\n     c_obs := %s |}" % (
+            c["id"], cbool(qcur[0]), cbool(qcur[1]), cbool(qcur[2]), "; ".join(ev_coq(e) for e in c["pre"]),
             "; ".join("[" + "; ".join(ev_coq(e) for e in cl) + "]" for cl in c["clients"]),
             "; ".join(ev_coq(e) for e in c["post"]), t)))
-    size = 250
+    size = 1500   # the evaluation itself takes well under a second per 1000 histories; coqc start-up dominates
     chunks = [terms[i:i + size] for i in range(0, len(terms), size)]
 
     def do_m(idx_chunk):
@@ -405,7 +462,7 @@ def main(tier, seed, replay=None):
             proof["ok"] = False
             proof["discharged"] = 0
     open_sigs = {f["sig"] for f in run.opened}
-    qcur = (SIG_LOOP in open_sigs, SIG_NIL in open_sigs)
+    qcur = (SIG_LOOP in open_sigs, SIG_NIL in open_sigs, SIG_UPD in open_sigs)
     rng = random.Random(seed)
     if replay:
         rp = json.load(open(replay))
@@ -420,15 +477,17 @@ def main(tier, seed, replay=None):
             for extra in (seed + 1000, seed + 2000):
                 r2 = random.Random(extra)
                 for c in gen_cases(r2, "quick"):
-                    if c["kind"] in ("structured", "aimed-at-quirks", "malformed", "concurrent"):
+                    if c["kind"] in ("structured", "aimed-at-quirks", "malformed", "concurrent", "panicking-observers"):
                         c["id"] = len(cases)
                         cases.append(c)
+    t_prep = time.time() - run.t0
     outs, results, bad, merges = run_cases(run, vh, cases, qcur)
+    log("C17: prepare %.1fs, harness+model %.1fs (%d histories)" % (t_prep, time.time() - run.t0 - t_prep, len(cases)))
     byid = {c["id"]: c for c in cases}
 
     def record(c, oracle):
         return {"case": {"pre": c["pre"], "clients": c["clients"], "post": c["post"], "history": hist_text(c), "kind": c["kind"]},
-                "observed": outs.get(c["id"]), "quirks_modelled_on": {"q_cancel_from_loop": qcur[0], "q_double_cancel_nil": qcur[1]},
+                "observed": outs.get(c["id"]), "quirks_modelled_on": {"q_cancel_from_loop": qcur[0], "q_double_cancel_nil": qcur[1], "q_update_panic_kills": qcur[2]},
                 "oracle": oracle}
     for cid, why in sorted(bad.items()):
         run.classify_failure(None, record(byid[cid], "observation outside the model's vocabulary: " + why))
@@ -446,13 +505,13 @@ def main(tier, seed, replay=None):
                                     "an open finding no longer reproduces", **record(c, "I = Moff, Mq <> Moff")})
         elif code >= 10:
             b = code - 10
-            sigs = ([SIG_LOOP] if b & 1 else []) + ([SIG_NIL] if b & 2 else [])
+            sigs = ([SIG_LOOP] if b & 1 else []) + ([SIG_NIL] if b & 2 else []) + ([SIG_UPD] if b & 4 else [])
             if not sigs:
                 run.classify_failure(None, record(c, "fails outside the guard but no single quirk is reachable"))
             for s in sigs:
                 run.classify_failure(s, record(c, "known defect reproduced (up to the oracle): " + s))
     # coverage
-    hist_kind, hist_len, hist_op, hist_out = {}, {}, {}, {}
+    hist_kind, hist_len, hist_op, hist_out, hist_panic = {}, {}, {}, {}, {}
     seen, dist = set(), 0
     for c in cases:
         o = outs.get(c["id"]) or {}
@@ -461,6 +520,14 @@ def main(tier, seed, replay=None):
         hist_len[len(evs)] = hist_len.get(len(evs), 0) + 1
         for e in evs:
             hist_op[e[0]] = hist_op.get(e[0], 0) + 1
+            if e[0] == "observe":
+                _, ex, _, pa, one = obs_parts(e)
+                for key, on in (("expression-panics", ex[0] in ("panic", "panicgt")), ("callback-panics-once", len(pa) == 1),
+                                ("callback-panics-repeatedly", len(pa) > 1), ("one-shot-onclose", one)):
+                    if on:
+                        hist_panic[key] = hist_panic.get(key, 0) + 1
+            if e[0] == "update" and e[1][0] in ("panic", "panicgt"):
+                hist_panic["update-expression-may-panic"] = hist_panic.get("update-expression-may-panic", 0) + 1
         outc = "crash" if o.get("st") == "crash" else o.get("final", o.get("st", "none"))
         hist_out[outc] = hist_out.get(outc, 0) + 1
         key = json.dumps([c["pre"], c["clients"], c["post"]])
@@ -474,15 +541,16 @@ def main(tier, seed, replay=None):
             dist += 1
     run.cov.update({
         "evaluations": len(cases), "distinct_nontrivial": dist,
-        "rule": "histories of Update/Observe/cancel/Hangup/Stop over 6 expression forms (constants, $-dependent, always-failing, failing above a threshold) and callbacks "
-                "failing at a chosen delivery: fixed corpus incl. every open finding's witness, a structured mostly-in-guard stream, a stream aimed at the open quirks, "
+        "rule": "histories of Update/Observe/cancel/Hangup/Stop over 8 expression forms (constants, $-dependent, always-failing, failing above a threshold, always panicking, "
+                "panicking above a threshold) and callbacks returning an error at a chosen delivery and/or panicking at chosen deliveries, onclose optionally one-shot (blocks when "
+                "entered twice): a stream of panicking observers followed by more accepted updates, fixed corpus incl. every open finding's witness, a structured mostly-in-guard stream, a stream aimed at the open quirks, "
                 "an unconstrained (malformed) stream, concurrent-client cases (2-4 goroutines; accepted iff some interleaving explains the observation), and all words up to "
-                "length %d over a 9-letter alphabet; each history runs on a fresh engine in a child process and in the Coq model (vm_compute). distinct by the event lists; "
+                "length %d over an 11-letter alphabet; each history runs on a fresh engine in a child process and in the Coq model (vm_compute). distinct by the event lists; "
                 "non-trivial = some observer received >= 2 messages and some Update was answered ok" % (2 if tier == "quick" else 3),
         "samples": [hist_text(cases[i]) for i in range(0, len(cases), max(1, len(cases) // 8))][:8],
         "kind_histogram": hist_kind, "length_histogram": {str(k): v for k, v in sorted(hist_len.items())}, "operation_histogram": hist_op,
         "outcome_histogram": hist_out, "classification_histogram": {str(k): v for k, v in sorted(codes.items())},
-        "interleavings_examined": merges,
+        "panic_feature_histogram": hist_panic, "interleavings_examined": merges,
         "exhaustive": False,
     })
     run.notes.append("concurrent cases: scheduling is sampled (whatever the Go scheduler did on this run); the acceptance criterion (some interleaving explains the observation) is exact")
